@@ -49,15 +49,34 @@ def r1(ctx):
             # must be guarded by equality with 'host' / ':authority' of a signed header element; every DIRECT way into the
             # block (the arms of a `||`) must be such an equality
             names = set()
-            for (a, s) in b.control_deps().get(d["block"], ()):
-                c = b.cond_of_switch(a)
-                tr = b.truth_of_edge(a, s)
-                if c and c.get("neg") and tr is not None:
-                    tr = not tr
-                if not (c and c["kind"] == "call" and re.search(r"PartialEq::eq$", c["callee"]) and tr is True):
+
+            def direct_ok(blk, depth=0):
+                """every direct way into blk is an allowed equality (or a bool local that is itself only set true that way)"""
+                okd = True
+                for (a, s) in b.control_deps().get(blk, ()):
+                    c = b.cond_of_switch(a)
+                    tr = b.truth_of_edge(a, s)
+                    if c and c.get("neg") and tr is not None:
+                        tr = not tr
+                    if c and c["kind"] == "call" and re.search(r"PartialEq::eq$", c["callee"]) and tr is True:
+                        continue
                     if c and c["kind"] == "discr":
                         continue  # iterator Some edge
-                    bad = True
+                    if c and c["kind"] == "local" and b.local_ty(c["local"]) == "bool" and tr is True and depth < 3:
+                        for d2 in b.defs().get(c["local"], []):
+                            if d2["kind"] == "assign" and d2["stmt"]["rv"]["k"] == "use" and op_const(d2["stmt"]["rv"]["op"]) is not None:
+                                if const_value(d2["stmt"]["rv"]["op"]["const"]) == 1 and not direct_ok(d2["block"], depth + 1):
+                                    okd = False
+                            elif d2["kind"] == "call" and re.search(r"PartialEq::eq$", d2["term"]["callee"]):
+                                continue
+                            else:
+                                okd = False
+                        continue
+                    okd = False
+                return okd
+
+            if not direct_ok(d["block"]):
+                bad = True
             for a, s, c, truth in guard_conditions(b, d["block"]):
                 if c["kind"] == "call" and re.search(r"PartialEq::eq$", c["callee"]) and truth is True:
                     t = c["term"]
